@@ -1,63 +1,67 @@
-(* C31 -- (4) partial round trip: a list of tokens of simple classes, rendered on one line with an arbitrary positive
-   number of blanks before each token and one after the last, is tokenized back into exactly these tokens at the
-   offsets of the rendering.  Generic in the class of tokens ([scans_as]); instantiated for words, single-character
-   separators, unsigned decimal integers and plain string literals. *)
+(* C31 -- (4) round trip: every list of lines made of the lexical elements of C31Lang.v (identifiers, the whole operator
+   table, numeric literals in the accepted forms, string / character literals with escapes, comments), laid out with any
+   white space that keeps adjacent elements separable, is tokenized back into exactly these elements with their flags,
+   line numbers and offsets. *)
 From Coq Require Import Ascii List Bool Arith Lia NArith.
-From C31 Require Import C31Model C31Spec C31Proofs.
+From C31 Require Import C31Model C31Spec C31Proofs C31Lang.
 Import ListNotations.
 Local Open Scope char_scope.
 
-Record item := mkItem { ipad : nat; itext : str; iflag : flag }.
+(* ------------------------------------------------------------------ white space *)
+Lemma blank_char_space c : blank_char c = true -> isspace c = true.
+Proof. unfold blank_char; intro H; apply andb_prop in H; tauto. Qed.
+Lemma blank_char_nl c : blank_char c = true -> c <> "010".
+Proof. unfold blank_char; intros H E; subst c; discriminate H. Qed.
+Lemma count_space_blanks : forall pad c r, blanks pad = true -> isspace c = false -> count_space (pad ++ c :: r) = length pad.
+Proof.
+  unfold count_space; induction pad as [|a pad IH]; intros c r B H; simpl.
+  - rewrite H; reflexivity.
+  - simpl in B; apply andb_prop in B; destruct B as [B1 B2]. rewrite (blank_char_space _ B1); simpl; f_equal; auto.
+Qed.
+Lemma count_space_all : forall pad, blanks pad = true -> count_space pad = length pad.
+Proof.
+  unfold count_space; induction pad as [|a pad IH]; intros B; simpl; [ reflexivity | ].
+  simpl in B; apply andb_prop in B; destruct B as [B1 B2]. rewrite (blank_char_space _ B1); simpl; f_equal; auto.
+Qed.
+Lemma skipn_app_len : forall (a b : str), skipn (length a) (a ++ b) = b.
+Proof. induction a; simpl; auto. Qed.
+Lemma firstn_app_len : forall (a b : str), firstn (length a) (a ++ b) = a.
+Proof. induction a; simpl; intros; [ reflexivity | f_equal; auto ]. Qed.
+Lemma blanks_no_nl : forall pad, blanks pad = true -> ~ In "010" pad.
+Proof.
+  induction pad as [|a pad IH]; simpl; intros B; [ tauto | ].
+  apply andb_prop in B; destruct B as [B1 B2]. intros [E|I].
+  - exact (blank_char_nl _ B1 E).
+  - exact (IH B2 I).
+Qed.
+Lemma last_all : forall (P : ascii -> Prop) pad a, P a -> (forall x, In x pad -> P x) -> P (last pad a).
+Proof.
+  intros P; induction pad as [|b pad IH]; intros a Ha H; simpl; [ exact Ha | ].
+  destruct pad as [|c pad']; [ apply H; left; reflexivity | ].
+  apply IH; [ exact Ha | intros x I; apply H; right; exact I ].
+Qed.
+Lemma blanks_all : forall pad x, blanks pad = true -> In x pad -> isspace x = true.
+Proof. intros pad x B I. unfold blanks in B. rewrite forallb_forall in B. apply blank_char_space, B, I. Qed.
+Lemma last_char_blanks : forall pad d, blanks pad = true -> pad <> [] -> exists c, last_char pad d = Some c /\ isspace c = true.
+Proof.
+  intros pad d B N. destruct pad as [|a pad]; [ congruence | ]. clear N. simpl. exists (last pad a). split; [ reflexivity | ].
+  apply (last_all (fun c => isspace c = true)).
+  - apply (blanks_all (a :: pad)); [ exact B | left; reflexivity ].
+  - intros x I. apply (blanks_all (a :: pad)); [ exact B | right; exact I ].
+Qed.
 
-Definition piece (it : item) : str := repeat " " (S (ipad it)) ++ itext it.
-Definition render (items : list item) : str := concat (map piece items) ++ [" "].
-
-Fixpoint toks_at (ln o : nat) (items : list item) : list token :=
-  match items with
-  | [] => []
-  | it :: r => mkTok (itext it) ln (o + S (ipad it)) [] (iflag it)
-                     :: toks_at ln (o + S (ipad it) + length (itext it)) r
-  end.
-
-(* the text, followed by a blank, is scanned as one token of flag f, whatever the context *)
-Definition scans_as (text : str) (f : flag) : Prop :=
+(* ------------------------------------------------------------------ what "this text is scanned as one element" means *)
+Definition scans_plain (o : opts) (text : str) (f : flag) (fol : ascii -> bool) (needp : bool) : Prop :=
   exists c body,
     text = c :: body /\ isspace c = false /\ (c == "#") = false /\ ~ In "010" text /\
-    match f with Number => filter_quote text = text | _ => True end /\
-    forall cas first prevc r, scan_token cas first prevc c (body ++ " " :: r) = SPlain (length body) f.
+    forall first prevc r, (needp = true -> psep prevc = true) -> hd_ok fol r = true ->
+                          scan_token o first prevc c (body ++ r) = SPlain (length body) f.
+Definition scans_com (o : opts) (bang : nat) (sp body sp2 : str) : Prop :=
+  forall first prevc r,
+    scan_token o first prevc "/" ("*" :: bangs bang ++ sp ++ body ++ sp2 ++ "*" :: "/" :: r)
+    = SComment (length (bangs bang) + length sp) (length body) (length sp2 + 2) (com_flag first bang) false.
 
-Definition valid (it : item) : Prop := scans_as (itext it) (iflag it).
-
-(* ------------------------------------------------------------------ list facts *)
-Lemma count_space_repeat : forall k c r, isspace c = false -> count_space (repeat " " k ++ c :: r) = k.
-Proof.
-  unfold count_space; induction k as [|k IH]; intros c r H; simpl.
-  - rewrite H; reflexivity.
-  - change (isspace " ") with true; simpl; f_equal; apply IH; exact H.
-Qed.
-
-Lemma skipn_repeat : forall k (l : str), skipn k (repeat " " k ++ l) = l.
-Proof. induction k; simpl; auto. Qed.
-
-Lemma firstn_repeat : forall k (l : str), firstn k (repeat " " k ++ l) = repeat " " k.
-Proof. induction k; simpl; intros; [ reflexivity | f_equal; auto ]. Qed.
-
-Lemma firstn_app_exact : forall (a b : str), firstn (length a) (a ++ b) = a.
-Proof. induction a; simpl; intros; [ reflexivity | f_equal; auto ]. Qed.
-
-Lemma skipn_app_exact : forall (a b : str), skipn (length a) (a ++ b) = b.
-Proof. induction a; simpl; auto. Qed.
-
-Lemma tail_space : forall items, exists r, concat (map piece items) ++ [" "] = " " :: r.
-Proof. intros [|it r]; simpl; eauto. Qed.
-
-Lemma last_char_repeat : forall k d, last_char (repeat " " (S k)) d = Some " ".
-Proof.
-  intros k d; simpl; f_equal. induction k as [|k IH]; simpl; [ reflexivity | ].
-  destruct k; simpl in *; auto.
-Qed.
-
-(* ------------------------------------------------------------------ one iteration of the loop *)
+(* one iteration of the loop on a plain element *)
 Lemma std_loop_step_plain : forall fuel cas ln first prevc o rest c tl k f,
     skipn (count_space rest) rest = c :: tl ->
     scan_token cas first (last_char (firstn (count_space rest) rest) prevc) c tl = SPlain k f ->
@@ -69,177 +73,352 @@ Lemma std_loop_step_plain : forall fuel cas ln first prevc o rest c tl k f,
     | e => e
     end.
 Proof. intros until f; intros E S; simpl; rewrite E, S; reflexivity. Qed.
+Lemma std_loop_step_com : forall fuel cas ln first prevc o rest c tl extra len post f,
+    skipn (count_space rest) rest = c :: tl ->
+    scan_token cas first (last_char (firstn (count_space rest) rest) prevc) c tl = SComment extra len post f false ->
+    std_loop (S fuel) cas ln first prevc o rest =
+    match std_loop fuel cas ln false (last_char (firstn (2 + extra + len + post) (c :: tl)) None)
+                   (o + count_space rest + (2 + extra + len + post)) (skipn (2 + extra + len + post) (c :: tl)) with
+    | Ok (ts, op) => Ok (mkTok (firstn len (skipn (2 + extra) (c :: tl))) ln (o + count_space rest + (2 + extra)) [] f :: ts, op)
+    | e => e
+    end.
+Proof. intros until f; intros E S; simpl; rewrite E, S; reflexivity. Qed.
 
-Lemma loop_round_trip : forall cas ln items fuel first prevc o,
-    Forall valid items ->
-    length (render items) < fuel ->
-    std_loop fuel cas ln first prevc o (render items) = Ok (toks_at ln o items, false).
+(* ------------------------------------------------------------------ comment openers *)
+Lemma comment_kind_bangs : forall first bang u,
+    bang <= 2 ->
+    (bang = 0 -> hd_is (fun d => d == "!") u = false) ->
+    (bang = 1 -> hd_is (fun d => d == "<") u = false) ->
+    comment_kind first (bangs bang ++ u) = (length (bangs bang), com_flag first bang).
 Proof.
-  intros cas ln; induction items as [|it items IH]; intros fuel first prevc o V L.
-  - destruct fuel; [ simpl in L; lia | reflexivity ].
-  - inversion V as [|? ? Vi Vr]; subst.
-    destruct Vi as (c & body & Ht & Hs & Hh & Hn & Hq & Hscan).
-    destruct (tail_space items) as (r & Hr).
-    assert (R : render (it :: items) = repeat " " (S (ipad it)) ++ c :: body ++ " " :: r).
-    { unfold render; cbn [map concat]; unfold piece at 1; rewrite Ht, <- !app_assoc, Hr; reflexivity. }
-    assert (Cs : count_space (render (it :: items)) = S (ipad it)) by (rewrite R; apply count_space_repeat; exact Hs).
+  intros first bang u L H0 H1. destruct bang as [|[|[|b]]]; try lia; simpl.
+  - specialize (H0 eq_refl). unfold comment_kind. destruct u as [|c t]; [ reflexivity | ]. simpl in H0. rewrite H0. reflexivity.
+  - specialize (H1 eq_refl). rewrite H1. reflexivity.
+  - reflexivity.
+Qed.
+(* the side condition of C31Lang on the first character after the opener *)
+Definition opener_ok (bang : nat) (sp body : str) : bool :=
+  match body with
+  | [] => true
+  | c :: _ => negb (isspace c)
+              && (match sp with
+                  | [] => (match bang with 0 => negb (c == "!") | 1 => negb (c == "<") | _ => true end)
+                  | _ => true end)
+  end.
+Lemma hd_is_blank_false : forall (p : ascii -> bool) sp x, blanks sp = true -> sp <> [] ->
+    (forall c, isspace c = true -> p c = false) -> hd_is p (sp ++ x) = false.
+Proof.
+  intros p sp x B N H. destruct sp as [|a sp]; [ congruence | ]. simpl. apply H.
+  simpl in B. apply andb_prop in B. destruct B as [B1 _]. exact (blank_char_space _ B1).
+Qed.
+Lemma space_not_bang : forall c, isspace c = true -> (c == "!") = false.
+Proof. intros c H; all_chars c; vm_compute in H; try discriminate H; reflexivity. Qed.
+Lemma space_not_lt : forall c, isspace c = true -> (c == "<") = false.
+Proof. intros c H; all_chars c; vm_compute in H; try discriminate H; reflexivity. Qed.
+(* [x] is what follows the body: empty, or text whose first character is neither '!' nor '<' when the body is empty *)
+Lemma opener_kind : forall first bang sp body x,
+    bang <= 2 -> blanks sp = true -> opener_ok bang sp body = true ->
+    (body = [] -> hd_is (fun d => (d == "!") || (d == "<")) x = false) ->
+    comment_kind first (bangs bang ++ sp ++ body ++ x) = (length (bangs bang), com_flag first bang).
+Proof.
+  intros first bang sp body x L B O X. apply comment_kind_bangs; [ exact L | | ].
+  - intros ->. destruct sp as [|a sp].
+    + destruct body as [|c body]; simpl in *.
+      * specialize (X eq_refl). destruct x as [|d x]; [ reflexivity | ]. simpl in *. apply orb_false_iff in X; tauto.
+      * apply andb_prop in O. destruct O as [_ O]. apply negb_true_iff in O. exact O.
+    + apply hd_is_blank_false; [ exact B | discriminate | exact space_not_bang ].
+  - intros ->. destruct sp as [|a sp].
+    + destruct body as [|c body]; simpl in *.
+      * specialize (X eq_refl). destruct x as [|d x]; [ reflexivity | ]. simpl in *. apply orb_false_iff in X; tauto.
+      * apply andb_prop in O. destruct O as [_ O]. apply negb_true_iff in O. exact O.
+    + apply hd_is_blank_false; [ exact B | discriminate | exact space_not_lt ].
+Qed.
+Lemma count_space_sp_body : forall sp body x,
+    blanks sp = true -> opener_ok 2 sp body = true -> (body = [] -> hd_is isspace x = false) ->
+    count_space (sp ++ body ++ x) = length sp.
+Proof.
+  intros sp body x B O X. destruct body as [|c body].
+  - simpl. destruct x as [|d x].
+    + rewrite app_nil_r. apply count_space_all. exact B.
+    + apply count_space_blanks; [ exact B | ]. specialize (X eq_refl). exact X.
+  - simpl. apply count_space_blanks; [ exact B | ]. simpl in O. apply andb_prop in O. destruct O as [O _].
+    apply negb_true_iff in O. exact O.
+Qed.
+Lemma opener_ok_weaken : forall bang sp body, opener_ok bang sp body = true -> opener_ok 2 sp body = true.
+Proof.
+  intros bang sp body H. destruct body as [|c body]; [ reflexivity | ]. simpl in *.
+  apply andb_prop in H. destruct H as [H _]. rewrite H. destruct sp; reflexivity.
+Qed.
+Lemma length_bangs : forall bang, bang <= 2 -> length (bangs bang) = bang.
+Proof. intros [|[|[|b]]] L; try lia; reflexivity. Qed.
+
+(* ------------------------------------------------------------------ the end of a line *)
+Lemma end_ok_cxx : forall pad bang sp body,
+    end_ok (ECxx pad bang sp body) = true ->
+    blanks pad = true /\ bang <= 2 /\ blanks sp = true /\ no_nl body = true /\ opener_ok bang sp body = true.
+Proof.
+  intros pad bang sp body H. simpl in H. repeat (apply andb_prop in H; destruct H as [H ?]).
+  repeat split; auto. apply Nat.leb_le; assumption.
+Qed.
+Lemma std_loop_end : forall o e fuel ln first prevc off,
+    end_ok e = true -> length (render_end e) < fuel ->
+    std_loop fuel o ln first prevc off (render_end e) = Ok (toks_end ln first off e, false).
+Proof.
+  intros o e fuel ln first prevc off E L. destruct fuel as [|fuel]; [ lia | ].
+  destruct e as [ws|pad bang sp body].
+  - simpl in *. rewrite count_space_all by exact E. rewrite skipn_all. reflexivity.
+  - destruct (end_ok_cxx _ _ _ _ E) as (Bp & Lb & Bs & Nb & O). cbn [render_end] in *.
+    assert (Cs : count_space (pad ++ "/" :: "/" :: bangs bang ++ sp ++ body) = length pad)
+      by (apply count_space_blanks; [ exact Bp | reflexivity ]).
+    assert (K : scan_token o first (last_char (firstn (length pad) (pad ++ "/" :: "/" :: bangs bang ++ sp ++ body)) prevc)
+                           "/" ("/" :: bangs bang ++ sp ++ body)
+                = SComment (length (bangs bang) + length sp) (length body) 0 (com_flag first bang) false).
+    { unfold scan_token. cbn [Ascii.eqb Bool.eqb andb orb isdigit in_range code N_of_ascii N.leb]. simpl.
+      unfold scan_cxx_comment.
+      replace (bangs bang ++ sp ++ body) with (bangs bang ++ sp ++ body ++ []) by (now rewrite app_nil_r).
+      rewrite (opener_kind first bang sp body [] Lb Bs O (fun _ => eq_refl)).
+      rewrite skipn_app_len.
+      rewrite (count_space_sp_body sp body [] Bs (opener_ok_weaken _ _ _ O) (fun _ => eq_refl)).
+      rewrite !app_length. simpl. f_equal; lia. }
+    erewrite std_loop_step_com; [ | rewrite Cs; apply skipn_app_len | rewrite Cs; exact K ].
+    rewrite Cs.
+    assert (Len : 2 + (length (bangs bang) + length sp) + length body + 0 = length ("/" :: "/" :: bangs bang ++ sp ++ body))
+      by (simpl; rewrite !app_length; lia).
+    rewrite Len, skipn_all.
+    destruct fuel as [|fuel]; [ rewrite app_length in L; simpl in L; lia | ].
+    cbn [std_loop count_space take_while length skipn toks_end].
+    change ("/" :: "/" :: bangs bang ++ sp ++ body) with (["/"; "/"] ++ bangs bang ++ sp ++ body).
+    rewrite !app_assoc. replace (2 + (length (bangs bang) + length sp)) with (length ((["/"; "/"] ++ bangs bang) ++ sp))
+      by (rewrite !app_length; simpl; lia).
+    rewrite skipn_app_len, firstn_all. rewrite !app_length. simpl length.
+    replace (off + length pad + (2 + length (bangs bang) + length sp)) with (off + length pad + 2 + length (bangs bang) + length sp) by lia.
+    reflexivity.
+Qed.
+
+(* ------------------------------------------------------------------ the loop over the elements of a line *)
+Definition spec_scans (o : opts) (t : tspec) : Prop :=
+  match t with
+  | TCom bang sp body sp2 => scans_com o bang sp body sp2 /\ bang <= 2 /\ no_nl (sp ++ body ++ sp2) = true
+  | _ => scans_plain o (text_of t) (flag_of t) (follow_of o t) (needs_sep_before t)
+  end.
+
+Lemma render_items_cons : forall pad t r, render_items ((pad, t) :: r) = pad ++ text_of t ++ render_items r.
+Proof. intros; unfold render_items; simpl; rewrite <- app_assoc; reflexivity. Qed.
+Lemma psep_of_pad : forall pad prevc, blanks pad = true -> pad <> [] -> psep (last_char pad prevc) = true.
+Proof.
+  intros pad prevc B N. destruct (last_char_blanks pad prevc B N) as (c & -> & S). simpl. unfold sep_or_space. rewrite S. reflexivity.
+Qed.
+
+Lemma loop_plain_step : forall o text f fol needp pad rest fuel ln first prevc off ts op,
+    scans_plain o text f fol needp -> blanks pad = true ->
+    (needp = true -> pad = [] -> psep prevc = true) ->
+    hd_ok fol rest = true ->
+    std_loop fuel o ln false (last_char text None) (off + length pad + length text) rest = Ok (ts, op) ->
+    std_loop (S fuel) o ln first prevc off (pad ++ text ++ rest)
+    = Ok (mkTok (match f with Number => filter_quote text | _ => text end) ln (off + length pad) [] f :: ts, op).
+Proof.
+  intros o text f fol needp pad rest fuel ln first prevc off ts op (c & body & Ht & Hs & Hh & Hn & Hscan) Bp Ps Fol Cont.
+  subst text. cbn [app] in *.
+  assert (Cs : count_space (pad ++ c :: body ++ rest) = length pad) by (apply count_space_blanks; assumption).
+  erewrite std_loop_step_plain;
+    [ | rewrite Cs; apply skipn_app_len
+      | rewrite Cs, firstn_app_len; apply Hscan;
+        [ intros Np; destruct pad as [|p0 pad']; [ apply Ps; auto | apply psep_of_pad; [ exact Bp | discriminate ] ]
+        | exact Fol ] ].
+  rewrite Cs, skipn_app_len, firstn_app_len.
+  replace (off + length pad + S (length body)) with (off + length pad + length (c :: body)) by (simpl; lia).
+  rewrite Cont. reflexivity.
+Qed.
+Lemma loop_com_step : forall o bang sp body sp2 pad rest fuel ln first prevc off ts op,
+    scans_com o bang sp body sp2 -> blanks pad = true ->
+    let text := text_of (TCom bang sp body sp2) in
+    std_loop fuel o ln false (last_char text None) (off + length pad + length text) rest = Ok (ts, op) ->
+    std_loop (S fuel) o ln first prevc off (pad ++ text ++ rest)
+    = Ok (mkTok body ln (off + length pad + (2 + length (bangs bang) + length sp)) [] (com_flag first bang) :: ts, op).
+Proof.
+  intros o bang sp body sp2 pad rest fuel ln first prevc off ts op Hscan Bp text Cont.
+  assert (Tx : text ++ rest = "/" :: "*" :: bangs bang ++ sp ++ body ++ sp2 ++ "*" :: "/" :: rest).
+  { unfold text; cbn [text_of app]. rewrite <- !app_assoc. reflexivity. }
+  rewrite Tx.
+  assert (Cs : count_space (pad ++ "/" :: "*" :: bangs bang ++ sp ++ body ++ sp2 ++ "*" :: "/" :: rest) = length pad)
+    by (apply count_space_blanks; [ exact Bp | reflexivity ]).
+  erewrite std_loop_step_com; [ | rewrite Cs; apply skipn_app_len | rewrite Cs; apply Hscan ].
+  rewrite Cs.
+  assert (Len : 2 + (length (bangs bang) + length sp) + length body + (length sp2 + 2) = length text)
+    by (unfold text; cbn [text_of length]; rewrite !app_length; cbn [length]; lia).
+  rewrite Len, <- Tx, skipn_app_len, firstn_app_len.
+  replace (off + length pad + length text) with (off + length pad + length text) in Cont by reflexivity.
+  rewrite Cont.
+  rewrite Tx. change ("/" :: "*" :: bangs bang ++ sp ++ body ++ sp2 ++ "*" :: "/" :: rest)
+    with (["/"; "*"] ++ bangs bang ++ sp ++ body ++ sp2 ++ "*" :: "/" :: rest).
+  rewrite !app_assoc. rewrite <- (app_assoc _ sp2). rewrite <- (app_assoc _ body).
+  replace (2 + (length (bangs bang) + length sp)) with (length ((["/"; "*"] ++ bangs bang) ++ sp)) by (rewrite !app_length; simpl; lia).
+  rewrite skipn_app_len, firstn_app_len. rewrite !app_length. cbn [length].
+  replace (off + length pad + (2 + length (bangs bang) + length sp)) with (off + length pad + (2 + length (bangs bang) + length sp)) by lia.
+  reflexivity.
+Qed.
+
+Definition is_nil_tok (l : list token) : bool := match l with [] => true | _ => false end.
+
+Section Loop.
+Variable o : opts.
+Hypothesis all_scan : forall t, tok_ok o t = true -> spec_scans o t.
+
+Lemma value_of_plain : forall t, (match t with TCom _ _ _ _ => False | _ => True end) ->
+    value_of t = match flag_of t with Number => filter_quote (text_of t) | _ => text_of t end.
+Proof. intros [ | | | | | | ]; simpl; intros; try contradiction; reflexivity. Qed.
+
+Lemma loop_items : forall items e ln fuel first prevc off,
+    items_ok o prevc items e = true -> end_ok e = true ->
+    length (render_items items ++ render_end e) < fuel ->
+    std_loop fuel o ln first prevc off (render_items items ++ render_end e)
+    = Ok (toks_items ln first off items
+          ++ toks_end ln (first && no_items items) (off + length (render_items items)) e, false).
+Proof.
+  induction items as [|[pad t] items IH]; intros e ln fuel first prevc off I E L.
+  - simpl. rewrite andb_true_r, Nat.add_0_r. apply std_loop_end; assumption.
+  - cbn [items_ok] in I. repeat (apply andb_prop in I; destruct I as [I ?]).
+    rename I into Bp. rename H into Irest. rename H0 into Psep. rename H1 into Fol. rename H2 into Tok.
+    rewrite render_items_cons in *. rewrite <- !app_assoc in *.
+    set (rest := render_items items ++ render_end e) in *.
     destruct fuel as [|fuel]; [ lia | ].
-    rewrite (std_loop_step_plain fuel cas ln first prevc o _ c (body ++ " " :: r) (length body) (iflag it)).
-    + rewrite Cs, skipn_app_exact, firstn_app_exact.
-      assert (E : " " :: r = render items) by (unfold render; rewrite Hr; reflexivity).
-      rewrite E, IH.
-      * simpl toks_at. rewrite <- Ht.
-        replace (o + S (ipad it) + S (length body)) with (o + S (ipad it) + length (itext it))
-          by (rewrite Ht; simpl; lia).
-        destruct (iflag it); rewrite ?Hq; reflexivity.
-      * exact Vr.
-      * rewrite <- E. rewrite R in L. rewrite app_length, repeat_length in L. simpl length in L.
-        rewrite app_length in L. simpl length in *. lia.
-    + rewrite Cs, R; apply skipn_repeat.
-    + rewrite Cs, R; apply Hscan.
+    pose proof (all_scan t Tok) as S.
+    assert (Nt : 1 <= length (text_of t)).
+    { destruct t; try (destruct S as (cc0 & bb0 & Ht & _); rewrite Ht; simpl; lia). simpl; lia. }
+    assert (Lr : length rest < fuel) by (rewrite !app_length in L; lia).
+    pose proof (IH e ln fuel false (last_char (text_of t) None) (off + length pad + length (text_of t)) Irest E Lr) as Cont.
+    assert (Goal2 : forall tk,
+               tk = mkTok (value_of t) ln (off + length pad + tok_pre t) [] (tok_flag first t) ->
+               Ok (tk :: toks_items ln false (off + length pad + length (text_of t)) items ++
+                      toks_end ln (false && no_items items) (off + length pad + length (text_of t) + length (render_items items)) e, false)
+               = Ok (toks_items ln first off ((pad, t) :: items) ++
+                     toks_end ln (first && no_items ((pad, t) :: items)) (off + length (pad ++ text_of t ++ render_items items)) e, false)).
+    { intros tk ->. cbn [toks_items no_items]. rewrite !andb_false_r. rewrite !app_length.
+      replace (off + (length pad + (length (text_of t) + length (render_items items))))
+        with (off + length pad + length (text_of t) + length (render_items items)) by lia. reflexivity. }
+    destruct t as [w|op|sg n|b|esc ch|b|bang sp body sp2].
+    7:{ (* comment *)
+      destruct S as (Sc & Lb & Nn).
+      erewrite loop_com_step; [ | exact Sc | exact Bp | exact Cont ].
+      apply Goal2. reflexivity. }
+    all: erewrite loop_plain_step;
+      [ apply Goal2; rewrite value_of_plain by exact I; cbn [tok_pre tok_flag]; rewrite Nat.add_0_r; reflexivity
+      | exact S | exact Bp
+      | intros Np ->; rewrite Np in Psep; cbn [negb orb is_nil] in Psep; destruct prevc; exact Psep
+      | unfold next_char in Fol; fold rest in Fol; destruct rest; [ reflexivity | exact Fol ]
+      | exact Cont ].
 Qed.
 
-Lemma render_no_newline : forall items, Forall valid items -> ~ In "010" (render items).
+(* a whole line, read with no comment open *)
+Lemma no_nl_In : forall s, no_nl s = true -> ~ In "010" s.
 Proof.
-  unfold render; induction items as [|it items IH]; intros V K.
-  - simpl in K; destruct K as [K|[]]; discriminate K.
-  - inversion V as [|? ? Vi Vr]; subst. cbn [map concat] in K.
-    destruct Vi as (c & body & Ht & Hs & Hh & Hn & _).
-    rewrite <- app_assoc in K. apply in_app_or in K; destruct K as [K|K]; [ | exact (IH Vr K) ].
-    unfold piece in K. apply in_app_or in K; destruct K as [K|K]; [ | exact (Hn K) ].
-    apply repeat_spec in K; discriminate K.
+  unfold no_nl. intros s H I. rewrite forallb_forall in H. apply H in I. discriminate I.
 Qed.
-
-(* lex (render items) = the tokens of the rendering *)
-Lemma lex_round_trip : forall cas items,
-    Forall valid items -> lex cas (render items) = Ok (toks_at 1 0 items).
+Lemma items_no_nl : forall items prevc e, items_ok o prevc items e = true -> ~ In "010" (render_items items).
 Proof.
-  intros cas items V; unfold lex.
-  rewrite split_nl_no_newline by (apply render_no_newline; exact V).
-  change (rev [] ++ render items) with (render items). cbn [lex_lines split_line].
-  assert (B : line_body cas 1 true None 0 (render items) = Ok (toks_at 1 0 items, false)).
-  { unfold line_body.
-    destruct items as [|it items'].
-    - reflexivity.
-    - inversion V as [|? ? Vi Vr]; subst.
-      destruct Vi as (c & body & Ht & Hs & Hh & Hn & Hq & Hscan).
-      assert (R : exists r, render (it :: items') = repeat " " (S (ipad it)) ++ c :: r).
-      { unfold render; cbn [map concat]; unfold piece at 1; rewrite Ht, <- !app_assoc; simpl; eauto. }
-      destruct R as (r & R).
-      rewrite R at 1 2. rewrite count_space_repeat by exact Hs. rewrite skipn_repeat, Hh.
-      apply loop_round_trip; [ exact V | lia ]. }
-  rewrite B. cbn [lex_lines fst]. rewrite rev_append_rev, app_nil_r, rev_involutive. reflexivity.
+  induction items as [|[pad t] items IH]; intros prevc e I; [ simpl; tauto | ].
+  cbn [items_ok] in I. repeat (apply andb_prop in I; destruct I as [I ?]).
+  rewrite render_items_cons. intros K. apply in_app_or in K. destruct K as [K|K]; [ exact (blanks_no_nl _ I K) | ].
+  apply in_app_or in K. destruct K as [K|K]; [ | exact (IH _ _ H K) ].
+  pose proof (all_scan t H2) as S. destruct t; try (destruct S as (cc0 & bb0 & _ & _ & _ & Hn & _); exact (Hn K)).
+  destruct S as (_ & _ & Nn). cbn [text_of] in K. destruct K as [K|[K|K]]; try discriminate K.
+  apply in_app_or in K. destruct K as [K|K]; [ destruct bang as [|[|b]]; simpl in K; intuition discriminate | ].
+  rewrite !app_assoc in K. apply in_app_or in K. destruct K as [K|K].
+  - rewrite <- app_assoc in K. exact (no_nl_In _ Nn K).
+  - simpl in K; intuition discriminate.
 Qed.
-
-(* ------------------------------------------------------------------ classes of simple tokens *)
-Definition word_start (c : ascii) : bool := (isalpha c || (c == "_")) && negb (c == "R").
-Definition word_char (d : ascii) : bool := negb (sep_or_space d).
-
-Lemma take_while_app_stop : forall body r,
-    forallb word_char body = true -> take_while (fun d => negb (sep_or_space d)) (body ++ " " :: r) = body.
+Lemma end_no_nl : forall e, end_ok e = true -> ~ In "010" (render_end e).
 Proof.
-  induction body as [|d body IH]; intros r H; simpl in *; [ reflexivity | ].
-  apply andb_prop in H; destruct H as [H1 H2]; unfold word_char in H1; rewrite H1; f_equal; apply IH; exact H2.
+  intros [ws|pad bang sp body] E; cbn [render_end].
+  - exact (blanks_no_nl _ E).
+  - destruct (end_ok_cxx _ _ _ _ E) as (Bp & Lb & Bs & Nb & O). intros K.
+    apply in_app_or in K. destruct K as [K|K]; [ exact (blanks_no_nl _ Bp K) | ].
+    destruct K as [K|[K|K]]; try discriminate K.
+    apply in_app_or in K. destruct K as [K|K]; [ destruct bang as [|[|b]]; simpl in K; intuition discriminate | ].
+    apply in_app_or in K. destruct K as [K|K]; [ exact (blanks_no_nl _ Bs K) | exact (no_nl_In _ Nb K) ].
 Qed.
-
-Lemma word_char_not_nl : forall d, word_char d = true -> d <> "010".
-Proof. intros d H E; subst d; discriminate H. Qed.
-
-Lemma word_scans : forall c body,
-    word_start c = true -> forallb word_char body = true -> scans_as (c :: body) Standard.
+Lemma line_no_nl : forall l, line_ok o l = true -> ~ In "010" (render_line l).
 Proof.
-  intros c body Hc Hb; exists c, body.
-  assert (A : isspace c = false /\ (c == "#") = false /\ c <> "010" /\
-              forall cas first prevc tl, scan_token cas first prevc c tl =
-                                         SPlain (length (take_while (fun d => negb (sep_or_space d)) tl)) Standard).
-  { clear Hb; all_chars c; vm_compute in Hc; try discriminate Hc; repeat split; try discriminate. }
-  destruct A as (A1 & A2 & A3 & A4).
-  repeat split; auto.
-  - intros [K|K]; [ exact (A3 K) | ].
-    rewrite forallb_forall in Hb. apply Hb in K. discriminate K.
-  - intros; rewrite A4, take_while_app_stop by exact Hb; reflexivity.
+  intros [items e] H. unfold line_ok in H. apply andb_prop in H. destruct H as [I E]. unfold render_line. cbn [fst snd] in *.
+  intros K. apply in_app_or in K. destruct K as [K|K]; [ exact (items_no_nl _ _ _ I K) | exact (end_no_nl _ E K) ].
 Qed.
 
-Definition single_seps : str := [";"; ","; "("; ")"; "{"; "}"; "["; "]"; "?"; "^"].
-
-Lemma sep_scans : forall c, In c single_seps -> scans_as [c] Standard.
+Lemma line_body_round : forall l ln first,
+    line_ok o l = true ->
+    line_body o ln first None 0 (render_line l) = Ok (toks_line ln first l, false).
 Proof.
-  intros c H; exists c, []; simpl in H.
-  repeat (destruct H as [H|H]; [ subst c; repeat split; try discriminate; try (intros [K|[]]; discriminate K) | ]);
-    contradiction.
+  intros [items e] ln first H. unfold line_ok in H. apply andb_prop in H. destruct H as [I E].
+  unfold render_line, toks_line. cbn [fst snd] in *.
+  assert (Std : std_loop (S (length (render_items items ++ render_end e))) o ln first None 0 (render_items items ++ render_end e)
+                = Ok (toks_items ln first 0 items ++ toks_end ln (first && no_items items) (length (render_items items)) e, false)).
+  { rewrite (loop_items items e ln _ first None 0 I E) by lia. reflexivity. }
+  unfold line_body.
+  destruct (skipn (count_space (render_items items ++ render_end e)) (render_items items ++ render_end e)) as [|c tl] eqn:Sk;
+    [ exact Std | ].
+  assert (Hc : (c == "#") = false); [ | rewrite Hc; exact Std ].
+  destruct items as [|[pad t] items].
+  - cbn [render_items concat map app] in Sk. destruct e as [ws|pad bang sp body]; cbn [render_end] in Sk.
+    + rewrite count_space_all, skipn_all in Sk by exact E. discriminate Sk.
+    + destruct (end_ok_cxx _ _ _ _ E) as (Bp & _).
+      rewrite count_space_blanks, skipn_app_len in Sk by (exact Bp || reflexivity). inversion Sk. reflexivity.
+  - cbn [items_ok] in I. repeat (apply andb_prop in I; destruct I as [I ?]).
+    rewrite render_items_cons, <- !app_assoc in Sk.
+    pose proof (all_scan t H2) as S. destruct t;
+      try (destruct S as (cc0 & bb0 & Ht & Hs & Hh & _); rewrite Ht in Sk; cbn [app] in Sk;
+           rewrite count_space_blanks, skipn_app_len in Sk by assumption; inversion Sk; subst; exact Hh).
+    cbn [text_of app] in Sk. rewrite count_space_blanks, skipn_app_len in Sk by (exact I || reflexivity). inversion Sk. reflexivity.
 Qed.
 
-(* unsigned decimal integers *)
-Lemma digits_q_all : forall ds r, forallb isdigit ds = true -> digits_q (ds ++ " " :: r) = Some (" " :: r).
+Lemma split_line_round : forall l ln acc,
+    line_ok o l = true ->
+    split_line o ln (acc, false) (render_line l) = Ok (rev_append (toks_line ln (is_nil_tok acc) l) acc, false).
 Proof.
-  induction ds as [|d ds IH]; intros r H; simpl in *; [ reflexivity | ].
-  apply andb_prop in H; destruct H as [H1 H2]; rewrite H1; apply IH; exact H2.
+  intros l ln acc H. unfold split_line.
+  replace (match acc with [] => true | _ :: _ => false end) with (is_nil_tok acc) by (destruct acc; reflexivity).
+  rewrite line_body_round by exact H. reflexivity.
 Qed.
 
-Lemma digit_facts : forall d, isdigit d = true ->
-    isspace d = false /\ (d == "#") = false /\ (d == "\") = false /\ (d == "-") = false /\ (d == "+") = false /\
-    (d == ".") = false /\ (d == "b") = false /\ (d == "x") = false /\ (d == "'") = false /\ d <> "010".
-Proof. intros d H; all_chars d; vm_compute in H; try discriminate H; repeat split; discriminate. Qed.
-
-Lemma filter_quote_digits : forall ds, forallb isdigit ds = true -> filter_quote ds = ds.
+(* several lines *)
+Lemma split_nl_line : forall l acc rest, ~ In "010" l -> split_nl acc (l ++ "010" :: rest) = (rev acc ++ l) :: split_nl [] rest.
 Proof.
-  induction ds as [|d ds IH]; intro H; simpl in *; [ reflexivity | ].
-  apply andb_prop in H; destruct H as [H1 H2].
-  destruct (digit_facts d H1) as (_ & _ & _ & _ & _ & _ & _ & _ & Q & _); rewrite Q; simpl; f_equal; apply IH; exact H2.
+  induction l as [|c l IH]; intros acc rest N; simpl.
+  - rewrite app_nil_r. reflexivity.
+  - destruct (c == "010") eqn:E; [ apply eqb_true in E; subst; exfalso; apply N; left; reflexivity | ].
+    rewrite IH by (intro K; apply N; right; exact K). simpl. rewrite <- app_assoc. reflexivity.
 Qed.
-
-Lemma num_rest_digits : forall ds r, forallb isdigit ds = true ->
-    num_rest false false false false (ds ++ " " :: r) = Some (" " :: r).
-Proof. intros ds r H; unfold num_rest; rewrite digits_q_all by exact H; reflexivity. Qed.
-
-Lemma number_scans : forall c body, forallb isdigit (c :: body) = true -> scans_as (c :: body) Number.
+Lemma split_nl_render : forall ls, ls <> [] -> Forall (fun l => line_ok o l = true) ls ->
+    split_nl [] (render_lines ls) = map render_line ls.
 Proof.
-  intros c body H; exists c, body.
-  pose proof H as H'. simpl in H'. apply andb_prop in H'; destruct H' as [Hc Hb].
-  destruct (digit_facts c Hc) as (F1 & F2 & F3 & F4 & F5 & F6 & _ & _ & _ & F10).
-  repeat split; auto.
-  - intros [K|K]; [ exact (F10 K) | ].
-    rewrite forallb_forall in Hb; apply Hb in K.
-    destruct (digit_facts _ K) as (_ & _ & _ & _ & _ & _ & _ & _ & _ & N); apply N; reflexivity.
-  - apply filter_quote_digits; exact H.
-  - intros cas first prevc r; unfold scan_token; rewrite F2, F3, Hc; unfold scan_number.
-    assert (P : parse_number (c :: body ++ " " :: r) = Some (" " :: r)).
-    { unfold parse_number; rewrite F4, F5; simpl orb; cbv iota.
-      unfold num_after_sign; rewrite Hc, F6; simpl negb; cbv iota.
-      destruct (c == "0").
-      - destruct body as [|d body']; [ cbn -[num_rest]; apply (num_rest_digits [c]); simpl; rewrite Hc; reflexivity | ].
-        simpl in Hb; apply andb_prop in Hb; destruct Hb as [Hd Hb'].
-        destruct (digit_facts d Hd) as (_ & _ & _ & _ & _ & _ & G7 & G8 & _).
-        change ((d :: body') ++ " " :: r) with (d :: body' ++ " " :: r); cbv iota; rewrite G7, G8.
-        apply (num_rest_digits (c :: d :: body')); simpl; rewrite Hc, Hd; exact Hb'.
-      - apply (num_rest_digits (c :: body)); exact H. }
-    rewrite P. f_equal. simpl length. rewrite app_length; simpl; lia.
+  induction ls as [|l ls IH]; intros N F; [ congruence | ]. inversion F as [|? ? F1 F2]; subst.
+  destruct ls as [|l2 ls].
+  - cbn [render_lines map]. rewrite split_nl_no_newline by (apply line_no_nl; exact F1). reflexivity.
+  - change (render_lines (l :: l2 :: ls)) with (render_line l ++ "010" :: render_lines (l2 :: ls)).
+    rewrite split_nl_line by (apply line_no_nl; exact F1). cbn [map rev app]. f_equal. apply IH; [ discriminate | exact F2 ].
 Qed.
-
-(* string literals without quote or backslash inside *)
-Definition plain_char (d : ascii) : bool := negb (d == """") && negb (d == "\") && negb (d == "010").
-
-Lemma find_close_plain : forall body seen r,
-    forallb plain_char body = true -> hd_is (fun x => x == "\") seen = false ->
-    find_close """" seen (body ++ """" :: r) = Some (length body).
+Lemma toks_line_nil : forall ln first l, is_nil_tok (toks_line ln first l) = negb (line_has_tokens l).
 Proof.
-  induction body as [|d body IH]; intros seen r H S; simpl in *.
-  - destruct seen as [|x seen']; [ reflexivity | simpl in S; simpl; rewrite S; reflexivity ].
-  - apply andb_prop in H; destruct H as [H1 H2]. unfold plain_char in H1.
-    apply andb_prop in H1; destruct H1 as [H1 H3]; apply andb_prop in H1; destruct H1 as [H1 H4].
-    apply negb_true_iff in H1; apply negb_true_iff in H4. rewrite H1; simpl.
-    rewrite IH; [ reflexivity | exact H2 | simpl; exact H4 ].
+  intros ln first [items e]. unfold toks_line, line_has_tokens. cbn [fst snd].
+  destruct items as [|[pad t] items]; [ | reflexivity ]. destruct e; reflexivity.
 Qed.
-
-Lemma string_scans : forall body, forallb plain_char body = true -> scans_as ("""" :: body ++ [""""]) String.
+Lemma is_nil_rev_append : forall ts acc, is_nil_tok (rev_append ts acc) = is_nil_tok acc && is_nil_tok ts.
 Proof.
-  intros body H; exists """", (body ++ [""""]).
-  repeat split; try reflexivity.
-  - intros [K|K]; [ discriminate K | ].
-    apply in_app_or in K; destruct K as [K|[K|[]]]; [ | discriminate K ].
-    rewrite forallb_forall in H; apply H in K; vm_compute in K; discriminate K.
-  - intros cas first prevc r; unfold scan_token; simpl.
-    unfold scan_string. rewrite <- app_assoc; simpl.
-    rewrite find_close_plain by (exact H || reflexivity).
-    rewrite app_length; simpl; f_equal; lia.
+  intros ts acc. rewrite rev_append_rev. destruct ts as [|t ts]; [ simpl; rewrite andb_true_r; reflexivity | ].
+  simpl. rewrite andb_false_r. destruct (rev ts); reflexivity.
 Qed.
+Lemma lex_lines_round : forall ls ln acc,
+    Forall (fun l => line_ok o l = true) ls ->
+    lex_lines o ln (acc, false) (map render_line ls) = Ok (rev acc ++ toks_lines ln (is_nil_tok acc) ls).
+Proof.
+  induction ls as [|l ls IH]; intros ln acc F.
+  - simpl. rewrite app_nil_r. reflexivity.
+  - inversion F as [|? ? F1 F2]; subst. cbn [map lex_lines]. rewrite split_line_round by exact F1.
+    rewrite IH by exact F2. rewrite is_nil_rev_append, toks_line_nil.
+    rewrite rev_append_rev, rev_app_distr, rev_involutive. cbn [toks_lines]. rewrite <- app_assoc. reflexivity.
+Qed.
+Theorem lex_round : forall ls,
+    Forall (fun l => line_ok o l = true) ls -> lex o (render_lines ls) = Ok (toks_lines 1 true ls).
+Proof.
+  intros ls F. unfold lex. destruct ls as [|l ls]; [ reflexivity | ].
+  rewrite split_nl_render by (discriminate || exact F). apply (lex_lines_round (l :: ls) 1 [] F).
+Qed.
+End Loop.
